@@ -15,12 +15,28 @@ def result_init():
     # ---- binarisation for the global metrics
     want_bin = ("if prediction_arr is not None and reference_arr is not None:\n    pred_binary = prediction_arr.copy()\n    ref_binary = reference_arr.copy()\n"
                 "    pred_binary[pred_binary != 0] = 1\n    ref_binary[ref_binary != 0] = 1\n    arrays_present = True")
-    if "arrays_present = False" not in src or want_bin not in src:
+    # the same 0/1 arrays of the input dtype built out of place ((a != 0) cast back to a's dtype, C-ordered like a copy)
+    want_bin2 = ("if prediction_arr is not None and reference_arr is not None:\n"
+                 "    pred_binary = (prediction_arr != 0).astype(prediction_arr.dtype, order='C')\n"
+                 "    ref_binary = (reference_arr != 0).astype(reference_arr.dtype, order='C')\n    arrays_present = True")
+    if "arrays_present = False" not in src or (want_bin not in src and want_bin2 not in src):
         raise Refuse("binarisation of the arrays for the global metrics")
     # ---- the loop over all metrics
     loops = [s for s in body if isinstance(s, ast.For) and ast.unparse(s.iter) == "Metric" and ast.unparse(s.target) == "m"]
     if len(loops) != 1 or loops[0].orelse:
         raise Refuse("expected exactly one `for m in Metric:` loop")
+    # Evaluation_List_Metric(...) with its arguments passed by keyword: put them in the order of the constructor's parameters
+    elm = find_func(parse("panoptica/metrics/metrics.py"), "__init__", "Evaluation_List_Metric")
+    params = [a.arg for a in elm.args.args][1:]
+    for n in ast.walk(loops[0]):
+        if isinstance(n, ast.Call) and isinstance(n.func, ast.Name) and n.func.id == "Evaluation_List_Metric" and n.keywords \
+                and all(k.arg in params for k in n.keywords) and len({k.arg for k in n.keywords}) == len(n.keywords):
+            given = params[:len(n.args)]
+            kw = {k.arg: k.value for k in n.keywords}
+            rest = params[len(n.args):len(n.args) + len(kw)]
+            if not (set(kw) & set(given)) and set(rest) == set(kw):          # a contiguous block right after the positional ones
+                n.args = list(n.args) + [kw[p] for p in rest]
+                n.keywords = []
     lb = [ast.unparse(s) for s in loops[0].body]
     want = ["if m in list_metrics:\n    is_edge_case, edge_case_result = self._edge_case_handler.handle_zero_tp(metric=m, tp=self.tp, "
             "num_pred_instances=self.num_pred_instances, num_ref_instances=self.num_ref_instances)\n"
